@@ -608,7 +608,13 @@ Definition fix_graph_direct (st : model * N) (r : gref) : model * N :=
   match get_gref m r with
   | None => st
   | Some g => let '(outs, ns, fr) := alias_direct m (g_outs g) fresh in
-              (upd_gref r (fun g => mkGraph (g_ins g) (g_inits g) (g_nodes g ++ ns) outs) m, fr)
+              (* the old output is renamed "<name>_orig": renaming a Value that is an initializer re-registers it,
+                 which moves it to the end of the initializer table *)
+              let renamed := filter (is_graph_input m) (g_outs g) in
+              let inits' := fold_left (fun l o => match alookup l o with
+                                                  | Some t => filter (fun vt => negb (N.eqb (fst vt) o)) l ++ [(o, t)]
+                                                  | None => l end) renamed (g_inits g) in
+              (upd_gref r (fun g => mkGraph (g_ins g) inits' (g_nodes g ++ ns) outs) m, fr)
   end.
 (* `scopes`: per graph-like (main, then each function) the list [itself; its subgraphs...] in the
    order of Graph.subgraphs(), given by the converter *)
